@@ -241,7 +241,7 @@ def gen_sync_read(rng):
                     stat[k] = (33188, len(whole), 5)
     sim = dict(maxdata=rng.choice([4096, 8192, 65536, 262144, 1 << 20]), fs=fs, stat=stat, burst=rng.random() < 0.4,
                okay_after_reply=rng.random() < 0.35, wrte_split=split, data_chunk=data_chunk, remote_ids=rand_remote_ids(rng), stray=stray_packets(rng))
-    return dict(envs=[base_env(rng, sim)], ops=ops)
+    return dict(envs=[base_env(rng, sim)], ops=ops, healthy=True)
 
 
 def gen_push(rng, big=False):
